@@ -481,6 +481,11 @@ def build_pool(rng):
                             "new": {"alpha": "NEW", "hello": "x"}, "fam": fam})
             if f != NOPARSER:
                 ops.append({"k": "parse", "f": f, "name": name, "t": b, "fam": fam})
+    # one ProjectFiles object with an excluded sub-project: iterate / iterate the reference / match
+    for pid in (0, 1):
+        for what in ("iter", "iterref", "match:l10n/de/ex/c.ftl", "match:l10n/de/a.ftl",
+                     "match:en-US/ex/deep/d.ftl", "match:en-US/sub/b.ftl"):
+            ops.append({"k": "pfiles", "p": pid, "what": what, "fam": "pfiles%d" % pid})
     for c, loc, path, ent in FILTER_QUERIES:
         ops.append({"k": "filter", "c": c, "loc": loc, "path": path, "ent": ent})
     for c in range(len(CONFIGS)):
@@ -554,6 +559,32 @@ class Proc:
         else:
             pc.add_paths(d)
         self.cfgver[c] += 1
+
+    def pfiles(self, pid):
+        """ONE ProjectFiles object per process and id (0: locale de, 1: reference/validation mode)
+        over a small tree; the main configuration excludes a sub-project (l10n/{locale}/ex/**)"""
+        from compare_locales.paths import ProjectConfig, ProjectFiles
+        if not hasattr(self, "_pf"):
+            self._pf = {}
+            root = os.path.join(self.tmp, "proj")
+            for rel in ("a.ftl", "sub/b.ftl", "ex/c.ftl", "ex/deep/d.ftl"):
+                for base in ("en-US", "l10n/de"):
+                    q = os.path.join(root, base, rel)
+                    os.makedirs(os.path.dirname(q), exist_ok=True)
+                    with open(q, "w") as fh:
+                        fh.write("k = v\n")
+            self._pfroot = root
+        if pid not in self._pf:
+            root = self._pfroot
+            main = ProjectConfig(root + "/main.toml")
+            main.set_locales(["de"])
+            main.add_paths({"l10n": root + "/l10n/{locale}/**", "reference": root + "/en-US/**"})
+            ex = ProjectConfig(root + "/ex.toml")
+            ex.set_locales(["de"])
+            ex.add_paths({"l10n": root + "/l10n/{locale}/ex/**", "reference": root + "/en-US/ex/**"})
+            main.exclude(ex)
+            self._pf[pid] = ProjectFiles("de" if pid == 0 else None, [main])
+        return self._pf[pid], self._pfroot
 
     def matcher(self, m):
         from compare_locales.paths import Matcher
@@ -683,6 +714,21 @@ def exec_op(proc, spec, texts, keep):
                 "jid": [junk_id(e) if is_junk(e) else 0 for e in es]}, es
     f = spec.get("f")
     name = name_of(spec) if f is not None else None
+    if k == "pfiles":
+        pf, root = proc.pfiles(spec["p"])
+        what = spec["what"]
+
+        def row(t):
+            return [t[0], t[1], t[2], sorted(t[3]) if t[3] is not None else None]
+
+        def go():
+            if what == "iter":
+                return [row(t) for t in pf]
+            if what == "iterref":
+                return [row(t) for t in pf.iter_reference()]
+            r = pf.match(root + "/" + what[len("match:"):])
+            return None if r is None else row(r)
+        return canon_tmp(guarded(go), proc.tmp), None
     if k == "getparser":
         from compare_locales import parser as _parser
 
@@ -981,7 +1027,7 @@ class Tables:
                                                   [enc_pentry(p) for p in
                                                    events_of(r["pent"], r["jid"],
                                                              eff_counter(st, o["f"]))], int(fl)]
-            elif o["k"] in ("compare", "lint", "merge", "serialize", "getparser", "add"):
+            elif o["k"] in ("compare", "lint", "merge", "serialize", "getparser", "add", "pfiles"):
                 self.vres[o["id"]] = intern.id(b["res"])
                 if st["dtd_set"]:
                     self.dtd[o["id"]] = st["dtd"]
@@ -998,7 +1044,7 @@ class Tables:
 
     def op_texts(self, o):
         k = o["k"]
-        if o.get("f") == NOPARSER or k == "getparser":
+        if o.get("f") == NOPARSER or k in ("getparser", "pfiles"):
             return []          # nothing is parsed (no parser is found for the name)
         if k == "parse":
             return [o["t"]]
@@ -1017,7 +1063,7 @@ class Tables:
     def enc_op(self, o):
         k, tx = o["k"], self.texts
         f = o.get("f")
-        if f == NOPARSER or k == "getparser":
+        if f == NOPARSER or k in ("getparser", "pfiles"):
             return [4, 0, [], o["id"]]      # an operation that reads no text with any parser
         if k == "parse":
             return [0, f, tx[f][o["t"]]]
@@ -1370,6 +1416,15 @@ def union_job(pairs, ext, jb, prefix=(), texts=None):
             if pairs[c][0].endswith("+android"):
                 pc.add_paths({"l10n": tmp + "/l10n/{locale}/" + name, "reference": tmp + "/en-US/" + name,
                               "test": ["android-dtd"]})
+        # legacy l10n.ini style entries: some files belong to a path entry that carries `module`
+        # (reported as <locale>/<module>/<path below the module>), the others to the entry without
+        modkeys = {}
+        for name, c in names.items():
+            if c in (0, 3):
+                d_ = name.split("/")[0]
+                pc.add_paths({"l10n": tmp + "/l10n/{locale}/" + d_ + "/**",
+                              "reference": tmp + "/en-US/" + d_ + "/**", "module": "mod%d" % c})
+                modkeys["mod%d/%s" % (c, name.split("/", 1)[1])] = c
         obs = compareProjects([pc], ["de", "fr"], tmp + "/l10n")
         by_content = {}
         # details per (content, locale): walk the tree
@@ -1383,8 +1438,10 @@ def union_job(pairs, ext, jb, prefix=(), texts=None):
         walk(obs.details, [])
         for path, det in flat.items():
             loc, _, name = path.partition("/")
-            if name in names:
+            if name in names and names[name] not in modkeys.values():
                 by_content["%d/%s" % (names[name], loc)] = det
+            elif name in modkeys:
+                by_content["%d/%s" % (modkeys[name], loc)] = det
             else:
                 by_content["?" + path] = det
         summary = {loc: dict(s) for loc, s in obs.summary.items()}
@@ -1534,7 +1591,7 @@ def draw_history(rng, ops, weights, n):
     return out
 
 
-WEIGHT = {"add": 1.5, "getparser": 1.5, "parse": 6, "rewalk": 1.5, "compare": 5, "lint": 3, "merge": 2.5, "serialize": 2.5,
+WEIGHT = {"pfiles": 2, "add": 1.5, "getparser": 1.5, "parse": 6, "rewalk": 1.5, "compare": 5, "lint": 3, "merge": 2.5, "serialize": 2.5,
           "filter": 3, "reconfig": 0.6, "moz": 1.5, "matcher": 2}
 
 
@@ -1658,12 +1715,18 @@ def history_round(chk, rng, model, nseq, rnd, t0):
             fam.setdefault(key, []).append(o)
     for key, members in sorted(fam.items()):
         if not chk.thorough and key.split(":")[0] not in ("loc", "ext", "rep", "empty") \
+                and not key.startswith("pfiles") \
                 and len(members) ** 2 > 100:
             # quick tier: the generic families (one parser singleton, mozpath, Matcher, a
             # configuration) are sampled; the targeted families stay exhaustive
             allp = [[a, b] for a in members for b in members]
             seqs.extend(rng.sample(allp, 100))
             continue
+        if key.startswith("pfiles"):
+            for a in members:
+                for b in members[:3]:
+                    for c_ in members[:3]:
+                        seqs.append([a, b, c_])
         for a in members:
             if len(members) > 14 and not chk.thorough and a["k"] not in ("getparser", "compare", "parse"):
                 continue      # quick tier, big family: only the cheap kinds as the first operation
